@@ -464,6 +464,14 @@ def rule_pqr_reader(prog, rep, rid, title="pdb2pqr's own PQR reader turns every 
             isinstance(a, dict) and all(a.get(k) == w[k] for k in w) for a, w in zip(atoms2, want))
         r.add("reader|whitespace-layout", same, "the records re-spaced by --whitespace are read back with the same field values" if same else
               f"the --whitespace form of the model records is read back as {str(atoms2)[:160]}", where)
+    # a coordinate record the token reader cannot make sense of must stop the read, never be left out silently
+    bad_line = "ATOM      9  CA  BAD A   9      12.3X5  41.153   3.834 -0.3200 2.0000\n"
+    try:
+        got_bad = run.call_function("io.py", "read_pqr", [lines[1], bad_line, lines[2]] if len(lines) > 2 else [bad_line])
+        r.bad("reader|unreadable-record-is-loud", f"a record with the coordinate '12.3X5' is skipped: read_pqr returns "
+              f"{len(got_bad) if isinstance(got_bad, list) else got_bad} atom(s) for 3 coordinate lines instead of stopping", where)
+    except Flow:
+        r.ok("reader|unreadable-record-is-loud", "a record with a coordinate that is not a number stops read_pqr with an error", where)
     # the whole file as print_pqr writes it (records, TER/END, format trailer) for either input format and either spacing
     for is_cif in (False, True):
         for ws in (False, True):
